@@ -235,6 +235,15 @@ def rule_labelfold(ctx):
     yield ob(R, f, "hierarchy._meet:levels-from-1", good, "levels are numbered from 1 (0 = no agreement) and later (deeper) levels overwrite earlier ones")
 
 
+def rule_squeeze(ctx):
+    from . import c14
+
+    for o in c14.rule_squeeze(ctx):
+        if o.construct.startswith("hierarchy.") or o.construct.startswith("package"):
+            o.rule = "C17.SQUEEZE"
+            yield o
+
+
 def rule_twin(ctx):
     for o in c06.rule_twincall(ctx):
         if o.construct.startswith("hierarchy."):
@@ -258,6 +267,7 @@ RULES = [
     ("C17.SELFEXCL", 5, rule_selfexcl),
     ("C17.RANKPAIRS", 5, rule_rankpairs),
     ("C17.TWIN", 4, rule_twin),
+    ("C17.SQUEEZE", 1, rule_squeeze),
     ("C17.LABELFOLD", 2, rule_labelfold),
     ("C17.EVALPARAM", 6, rule_evalparam),
 ]
